@@ -33,8 +33,16 @@ func main() {
 		chk.Set("rule", "every forged decision shape (wrong instance/phase/round/empty/wrong base/bad aggregate) and every signer subset of 3- and 4-member tables (equal, weighted, zero-scaled-power member) injected through the sim adversary host interface, plus an overwritten honest decision; certchain committees for every instance of generated chains (look-back {3,5,10}, initial {0,7}) against the node rule and the node's consensus-inputs component")
 		chk.Assume("sim latency model default; fake signing backend; model EC backend for certchain")
 		chk.Finish()
+	case "C03":
+		// auxiliary pass of C03 (run by ./check with VERIF_SIDE=host before engine E1 decides the participant half)
+		chk := vcommon.NewCheck("C03", "model_checking")
+		runC03Host(chk, thorough)
+		chk.Set("exhaustive", chk.Violations() == 0)
+		chk.Set("rule", "every history of <=6 (thorough 8) decisions, each finalizing 0, 1 or 2 new tipsets, x committee look-back {2,3,5} x initial instance {0,7}, over a model EC whose power table changes every epoch (members joining, leaving, re-keyed): each decision through the production gpbftHost.saveDecision; the certificate must carry the delta between the committees of the instance and of the next one, chain-validate on an independent validator, and be the store's latest")
+		chk.Assume("model EC backend and in-memory certificate store; fake signing backend; decisions signed by the minimal strong quorum of the instance's committee")
+		chk.Finish()
 	default:
-		fmt.Fprintln(os.Stderr, "inputsenum: -prop must be C15 or C19")
+		fmt.Fprintln(os.Stderr, "inputsenum: -prop must be C15, C19 or C03")
 		os.Exit(2)
 	}
 }
